@@ -1,8 +1,8 @@
 #!/bin/bash
-# usage: harness/confirm_seeded.sh <Cxx> <mN>  — confirm a sub-agent's seeded change in its scratch worktree
+# usage: [MUT_BASE=/tmp/mut2 MUT_TAG=r2] harness/confirm_seeded.sh <Cxx> <mN>  — confirm a sub-agent's seeded change in its scratch worktree
 # (suite still passes with the change; demo fails with it and passes without), then copy it to /verif/seeded/
 set -u
-prop=$1; m=$2; wt=/tmp/mut/$prop; src=$wt/out/$m
+prop=$1; m=$2; base=${MUT_BASE:-/tmp/mut}; tag=${MUT_TAG:-}; wt=$base/$prop; src=$wt/out/$m
 cd "$wt" || exit 2
 git checkout -q -- . ; git apply "$src/patch.diff" || { echo "APPLY-FAILED"; exit 2; }
 res=$(PYTHONPATH=$wt /venv/bin/python -m pytest -q -p no:cacheprovider --no-cov -n 12 --timeout=900 2>&1 | tail -1)
@@ -14,7 +14,7 @@ echo "demo exit with change: $with, without: $without"
 ok=0
 if echo "$res" | grep -q "2116 passed" && [ $with -ne 0 ] && [ $without -eq 0 ]; then ok=1; fi
 if [ $ok -eq 1 ]; then
-  dst=/verif/seeded/$prop-$m; mkdir -p "$dst"; cp "$src/patch.diff" "$src/demo.py" "$dst/"
+  dst=/verif/seeded/$prop-$tag$m; mkdir -p "$dst"; cp "$src/patch.diff" "$src/demo.py" "$dst/"
   python3 - "$src/meta.json" "$dst/meta.json" "$res" "$with" "$without" <<'PY'
 import json,sys
 m=json.load(open(sys.argv[1]))
